@@ -41,6 +41,8 @@ CONSTS = [
     ("MAX_RRSIGS_PER_RRSET", "crates/net/src/dnssec/mod.rs", r"^const MAX_RRSIGS_PER_RRSET: usize = (\w+);", ""),
     ("CACHE_MAX_TTL", "crates/resolver/src/cache.rs", r"^pub const MAX_TTL: u32 = (\w+);", "resolver cache MAX_TTL"),
     ("MAX_CNAME_LOOKUPS", "crates/resolver/src/recursor/handle.rs", r"^const MAX_CNAME_LOOKUPS: u8 = (\w+);", "recursor"),
+    ("RECURSOR_RECURSION_LIMIT_DEFAULT", "crates/resolver/src/recursor/mod.rs", r"^\s*recursion_limit: (\d+),", "RecursorOptions::default().recursion_limit"),
+    ("RECURSOR_NS_RECURSION_LIMIT_DEFAULT", "crates/resolver/src/recursor/mod.rs", r"^\s*ns_recursion_limit: (\d+),", "RecursorOptions::default().ns_recursion_limit"),
     ("MAX_QUERY_DEPTH", "crates/resolver/src/caching_client.rs", r"^\s*const MAX_QUERY_DEPTH: u8 = (\w+);", "stub resolver alias depth"),
     ("MAX_CNAME_DEPTH", "crates/server/src/store/in_memory/inner.rs", r"^\s*const MAX_CNAME_DEPTH: usize = (\w+);", "authoritative CNAME chase depth"),
     ("UDP_MAX_EXAMINED", "crates/net/src/udp/udp_client_stream.rs", r"^\s*for _ in 0\.\.(\d+) \{", "datagrams examined per UDP transmission"),
